@@ -284,6 +284,13 @@ impl Property for C17 {
             }
             if src.chance(1, 2) { prelude.push(vec![bb("PEXPIRE"), k, bb("10000")]); }
         }
+        // one run in five is not on the default configuration: a few of the server's numeric limits are set low through
+        // CONFIG SET first (a limit that is only enforced when configured never shows on the defaults)
+        if src.chance(1, 5) {
+            rep.probe("limits_lowered_through_config_set");
+            const LIMITS: &[&str] = &["proto-max-bulk-len", "client-query-buffer-limit", "maxmemory", "maxclients", "hash-max-listpack-entries", "hash-max-listpack-value", "set-max-intset-entries", "set-max-listpack-entries", "zset-max-listpack-entries", "zset-max-listpack-value", "list-max-listpack-size", "list-compress-depth", "lua-time-limit", "hz", "timeout", "databases"];
+            for _ in 0..=src.below(3) { let p = LIMITS[src.idx(LIMITS.len())]; let v = ["0", "1", "2", "3", "8", "16", "64"][src.idx(7)]; prelude.push(vec![bb("CONFIG"), bb("SET"), bb(p), bb(v)]); }
+        }
         for c in &prelude { if let Ok(cmd) = parse_cmd(c) { let _ = ex.execute(&cmd); } }
         let steps = src.list(40, 29, 30, |s| (s.below(10), s.below(6)));
         let mut shown: Vec<String> = Vec::new();
